@@ -28,8 +28,10 @@ Clauses(rec) ==
     LET c == rec.c o == rec.o IN
     CASE rec.part = "pow" ->
             LET v == JudgePow(c, o) IN
-            IF v \in {"OK", "SKIP"} THEN One(v)
-            ELSE << F(v, c.mon \o (IF c.one = "default" THEN "/default-unit" ELSE "")) >>
+            (IF v \in {"OK", "SKIP"} THEN One(v)
+             ELSE << F(v, c.mon \o (IF c.one = "default" THEN "/default-unit" ELSE "")) >>)
+            \* "x multiplied by itself n times" is about the caller's x: the call must leave it alone
+            \o (IF o.xa # o.xb THEN << F("pow-argument-modified", c.mon) >> ELSE << >>)
       [] rec.part = "euclid" -> One(JudgeEE(c, o.ee)) \o One(JudgeGcd(c, o.g)) \o One(JudgeLcm(c, o.l))
       [] rec.part = "gcdmany" -> One(JudgeGcdMany(c, o))
       [] rec.part = "fft" ->
